@@ -17,17 +17,19 @@ def atoiDigits : List Char → Nat → Option Nat
   | [], acc => some acc
   | c :: cs, acc => if '0' ≤ c ∧ c ≤ '9' then atoiDigits cs (acc * 10 + (c.toNat - 48)) else none
 
-def atoi (s : List Char) : Option Int :=
-  let (neg, body) := match s with
-    | '-' :: r => (true, r)
-    | '+' :: r => (false, r)
-    | r => (false, r)
+def atoiSigned (neg : Bool) (body : List Char) : Option Int :=
   if body.isEmpty then none else
   match atoiDigits body 0 with
   | none => none
   | some n =>
     if neg then (if n ≤ 9223372036854775808 then some (-(n : Int)) else none)
     else (if n ≤ 9223372036854775807 then some (n : Int) else none)
+
+def atoi (s : List Char) : Option Int :=
+  match s with
+  | '-' :: r => atoiSigned true r
+  | '+' :: r => atoiSigned false r
+  | r => atoiSigned false r
 
 /-- `strings.Split(s, ".")`-style split of a character list on one separator character -/
 def splitOn (sep : Char) : List Char → List (List Char)
